@@ -63,10 +63,10 @@ def make_case(ncpu, n, slow=(), fault=None, seed=None, logs=True, variant='fast'
     for fault in ([fault] if fault is not None else []) + list(faults or []):
         act = ('raise', 'injected fault') if fault['kind'] == 'raise' else ('exit', int(fault.get('code', 3)))
         pre = []
-        if fault['point'] == 'queued':
+        if fault['point'] in ('queued', 'done'):
             if fault.get('flushed', True) or fault.get('late'):
                 pre = [('sleep', fault.get('delay', FAULT_DELAY))]
-            plan.append(entry('queued', fault['pid'], None, *(pre + [act])))
+            plan.append(entry(fault['point'], fault['pid'], None, *(pre + [act])))
         else:
             if fault.get('late'):
                 pre = [('sleep', FAULT_DELAY)]
@@ -101,6 +101,8 @@ def expects_error(case):
     ks = chunk_sizes(n, ncpu)
     for pid, where, task, a, v, delayed in _fault_actions(case):
         if 1 <= pid < ncpu and (where == 'queued' or (where == 'task' and task is not None and task < ks[pid])):
+            return True
+        if 1 <= pid < ncpu and where == 'done' and (a == 'raise' or v != 0):
             return True
     return False
 
@@ -138,12 +140,12 @@ def _fault_class(case):
         return 'no-fault'
     pid, where, task, a, v, delayed = fa[0]
     kind = 'raise' if a == 'raise' else ('exit0' if v == 0 else 'exit-nonzero')
-    return '%s-at-%s' % (kind, 'task' if where == 'task' else 'queued')
+    return '%s-at-%s' % (kind, {'task': 'task', 'done': 'done'}.get(where, 'queued'))
 
 
 def model_fault_specs(case):
     """fault tokens for the driver (a list of alternatives, all of which are possible for this plan);
-    None when the case has a fault the model does not cover (function raising in the master's chunk)."""
+    None when the case is outside the model (illegal worker count)."""
     ncpu, n = case['ncpu'], case['n']
     if ncpu < 1:
         return None
@@ -152,15 +154,17 @@ def model_fault_specs(case):
     specs = [[]]
     for i in case.get('boom') or []:
         p = max(q for q in range(ncpu) if starts[q] <= i)
-        if p == 0:
-            return None
-        specs = [s + ['%d:raise:%d' % (p, i - starts[p])] for s in specs]
+        specs = [s + ['%d:raise:%d' % (p, i - starts[p])] for s in specs]     # p = 0: the function raises in the master
     if ncpu > 1:
         for pid, where, task, a, v, delayed in _fault_actions(case):
             if not (1 <= pid < ncpu):
                 continue
             if where == 'task':
                 tok = ['%d:raise:%d' % (pid, task)] if a == 'raise' else ['%d:exit:%d:%d' % (pid, task, v)]
+            elif where == 'done':
+                code = 1 if a == 'raise' else v
+                # exit after the sentinel; without a delay the sentinel may not have reached the pipe
+                tok = ['%d:xs:%d' % (pid, code)] if delayed else ['%d:xs:%d' % (pid, code), '%d:xq:%d:1' % (pid, code)]
             else:
                 code = 1 if a == 'raise' else v
                 # without a delay the result may or may not have reached the pipe before the exit
@@ -268,12 +272,12 @@ def _check_outcome(case, out, what):
         return 'wrong-result', '%s returned %d results for %d inputs' % (what, len(res), n)
     if case.get('api') == 'do_trials':
         for i, r in enumerate(res):
-            if not (len(r) == 4 and r[2] == 7):
+            if not (len(r) == 4 and r[2] == (0 if (case.get('form') or {}).get('kwargs') == 'empty' else 7)):
                 return 'wrong-result', '%s: row %d is %r (keyword argument k=7 not passed through)' % (what, i, r)
         return None
     rs = int(case.get('rsize') or 0)
     for i, r in enumerate(res):
-        if not (isinstance(r, (tuple, list)) and len(r) == (5 if rs else 4) and r[0] == i and r[1] == i * i + 3 * i and (not rs or r[4] == rs)):
+        if not (isinstance(r, (tuple, list)) and len(r) == (5 if rs else 4) and r[0] == i and r[1] == i * i + pf.kval(case, i) and (not rs or r[4] == rs)):
             return 'wrong-result', '%s: result %d is %r, expected that of task %d (returned task order %s)' % (
                 what, i, r, i, [x[0] if isinstance(x, (tuple, list)) else x for x in res])
     return None
@@ -327,7 +331,9 @@ def model_outcomes(ctx, items, exhaustive_limit):
         pres = ['-',
                 ','.join(str(p) for p in range(1, ncpu) for _ in range(ks[p] + 4)) or '-',
                 ','.join(['0'] * (ks[0] + 3) + [str(p) for p in range(ncpu - 1, 0, -1) for _ in range(ks[p] + 4)]),
-                ','.join(str(ctx.rng.randrange(ncpu)) for _ in range(40))]
+                ','.join(str(ctx.rng.randrange(ncpu)) for _ in range(40)),
+                # every child up to (not including) its exit, then the master alone: it has to wait in join
+                ','.join([str(p) for p in range(1, ncpu) for _ in range(ks[p] + 2)] + ['0'] * (ks[0] + 6 * ncpu + 4)) or '-']
         for pre in pres:
             lines.append('run cur %d %d %s %s %s' % (ncpu, n, spec, lg, pre))
             owner.append((it, False))
@@ -336,6 +342,11 @@ def model_outcomes(ctx, items, exhaustive_limit):
     for (it, expl), a in zip(owner, ans):
         if a in ('bad-op', '') or 'budget' in a:
             raise MachineryError('driver C09 answered %r for %r' % (a, it))
+        if ' tags:' in a:
+            a, tags = a.split(' tags:')
+            for t in tags.split(','):
+                if t:
+                    ctx.count('model-branch:' + t)
         res.setdefault(it, set()).update(a.split(';'))
         if expl:
             ctx.count('model:explored-all-schedules')
@@ -408,6 +419,73 @@ def _fault_grid(ncpu, n):
         yield {'pid': pid, 'point': 'queued', 'kind': 'exit', 'code': 3, 'flushed': True}
         yield {'pid': pid, 'point': 'queued', 'kind': 'exit', 'code': 0, 'flushed': True}
         yield {'pid': pid, 'point': 'queued', 'kind': 'exit', 'code': 3, 'flushed': False}
+        yield {'pid': pid, 'point': 'queued', 'kind': 'raise', 'flushed': False}      # the wrapper raises after rqueue.put
+        if DONE_HOOK:
+            # after the log sentinel: death with a non-zero code, a clean os._exit(0), death before the sentinel is flushed
+            yield {'pid': pid, 'point': 'done', 'kind': 'exit', 'code': 3, 'flushed': True}
+            yield {'pid': pid, 'point': 'done', 'kind': 'exit', 'code': 0, 'flushed': True}
+            yield {'pid': pid, 'point': 'done', 'kind': 'exit', 'code': 3, 'flushed': False}
+            yield {'pid': pid, 'point': 'done', 'kind': 'raise', 'flushed': True}
+
+
+DONE_HOOK = False       # does the tree have the third hook point (after the log sentinel)?  set by run()
+ALL_BRANCHES = ['c.task', 'c.taskFault', 'c.put', 'c.putLost', 'c.putPartial', 'c.sentinel', 'c.sentinelFault', 'c.exit0',
+                'c.exitNonzero', 'c.idle', 'm.ownTask', 'm.ownRaise', 'm.ownEnd', 'm.pop', 'm.blocked', 'm.missing', 'm.resnap',
+                'm.sleep', 'm.toJoin', 'm.sentinel', 'm.record', 'm.logsLost', 'm.drainSnap', 'm.logsWait', 'm.done', 'm.badExit',
+                'm.joinWait', 'm.recv']
+UNREACHABLE_BRANCHES = ['m.badPid', 'm.keyError']      # proved unreachable (orphans_master / clean_not_error)
+
+FORM_DIMS = {'container': ['list', 'tuple', 'ndarray'], 'pair': ['tuple', 'list'], 'args': ['tuple', 'list'],
+             'kwargs': ['own', 'shared', 'empty'], 'func': ['plain', 'lambda', 'closure', 'method', 'partial', 'callable'],
+             'result': ['tuple', 'list', 'dict', 'ndarray']}
+
+
+def gen_forms(rng, k):
+    """k random forms in which every value of every dimension occurs (first len(max dim) forms are a covering)"""
+    forms = []
+    width = max(len(v) for v in FORM_DIMS.values())
+    cols = {}
+    for d, v in FORM_DIMS.items():     # make each column a covering of its dimension
+        col = (v * width)[:width]
+        rng.shuffle(col)
+        cols[d] = col
+    for i in range(width):
+        forms.append({d: cols[d][i] for d in FORM_DIMS})
+    while len(forms) < k:
+        forms.append({d: rng.choice(v) for d, v in FORM_DIMS.items()})
+    return forms[:max(k, width)]
+
+
+def o_ncpu(ctx, case):
+    """get_ncpu(cfg, local) vs Model getNcpu: case {'cfg': token, 'local': token}, tokens none | int:<n> | bool:<0|1> | float | npint | str"""
+    imp, req = _ncpu_impl(case)
+    model = ctx.driver('C09', [req])[0]
+    return None if imp == model else 'get_ncpu(cfg ncpu=%s, local_ncpu=%s): implementation %s, model %s' % (case['cfg'], case['local'], imp, model)
+
+
+def _ncpu_value(tok):
+    import numpy as np
+    if tok == 'none':
+        return None, 'none'
+    if tok.startswith('int:'):
+        return int(tok[4:]), tok
+    if tok.startswith('bool:'):
+        return bool(int(tok[5:])), 'int:' + tok[5:]      # isinstance(True, int): a bool is an int for get_ncpu
+    return {'float': 2.0, 'npint': np.int64(2), 'str': '2'}[tok], 'other'
+
+
+def _ncpu_impl(case):
+    from skyllh.core.config import Config
+    from skyllh.core.multiproc import get_ncpu
+    cv, cm = _ncpu_value(case['cfg'])
+    lv, lm = _ncpu_value(case['local'])
+    cfg = Config()
+    cfg['multiproc']['ncpu'] = cv
+    try:
+        imp = 'ok:%d' % get_ncpu(cfg, lv)
+    except (TypeError, ValueError) as e:
+        imp = type(e).__name__
+    return imp, 'ncpuof %s %s' % (cm, lm)
 
 
 def _fault_variants(ncpu, n, fault):
@@ -425,6 +503,12 @@ def run(ctx):
         raise MachineryError('the guarded C09 hook (_verif_point in skyllh/core/multiproc.py, commit "hook: …") is missing in this tree')
     rng = ctx.rng
     W = pf.WATCHDOG_S
+    global DONE_HOOK
+    import inspect
+    DONE_HOOK = "_verif_point('done'" in inspect.getsource(mp_mod.parallelize)
+    if not DONE_HOOK:
+        ctx.note("this tree has no hook point after the log sentinel (commit 'hook: third guarded verification point …'): "
+                 "deaths after the sentinel are not injected")
     ctx.rule = ('real processes under a %.0f s watchdog: ncpu 1..%d x tasks 0..%d x every assignment of {fast, slow} to the '
                 'processes (master included); faults: every (child, task index | after-result-queued, kind in {raise, exit 0, '
                 'exit 3, exit before/after the result reached the pipe}) x 3 completion orders, exhaustive up to ncpu %d / %d tasks, '
@@ -572,6 +656,38 @@ def run(ctx):
         c = make_case(3, 6, fault=fault, variant='orphan-check')
         c['plan'].append(entry('task', 2, 0, ('sleep', 3.0)))
         groups.append([c])
+    # ---- deepening round: how things are handed over (container / pair / args / kwargs / function / result forms)
+    forms = gen_forms(rng, ctx.n(10, 40))
+    for fi, form in enumerate(forms):
+        for (ncpu, n) in [(1, 3), (2, 0), (3, 5), (4, NT)][fi % 2::2] if not ctx.thorough else [(1, 3), (2, 0), (3, 5), (4, NT)]:
+            sd = boundary_seed(fi + ncpu, 500 + fi)
+            g = [dict(make_case(ncpu, n, slow=sl, seed=sd, variant='form'), form=form) for sl in ([], [ncpu - 1])]
+            for d, v in form.items():
+                ctx.count('form:%s=%s' % (d, v), len(g))
+            groups.append(g)
+            if ncpu > 1 and n > 0:
+                fault = rng.choice(list(_fault_grid(ncpu, n)))
+                groups.append([dict(make_case(ncpu, n, fault=fault, variant='form-fault'), form=form)])
+    for ncpu in (1, 3):
+        for fk, fn in (('empty', 'keyword'), ('own', 'cfg'), ('empty', 'positional'), ('own', 'positional'), ('empty', 'cfg')):
+            groups.append([dict(make_case(ncpu, 4, seed=boundary_seed(ncpu, 9), api='do_trials', slow=sl, variant='do_trials-form'),
+                                form={'kwargs': fk, 'ncpu': fn}) for sl in ([], [ncpu - 1])])
+    # the function raises in the master's chunk (now part of the model: 0:raise:t) x completion orders, and together with a child fault
+    for ncpu, n in [(2, 4), (3, 6), (4, 6)]:
+        for i in range(chunk_sizes(n, ncpu)[0]):
+            for sl in ([], [0], list(range(1, ncpu))):
+                c = make_case(ncpu, n, slow=sl, variant='master-raises')
+                c['boom'] = [i]
+                groups.append([c])
+        c = make_case(ncpu, n, fault=rng.choice(list(_fault_grid(ncpu, n))), variant='master-raises+fault')
+        c['boom'] = [0]
+        groups.append([c])
+    # a child that is slow to exit after the sentinel: the master waits in join
+    if DONE_HOOK:
+        for ncpu in range(2, NC + 1):
+            c = make_case(ncpu, NT, seed=19, variant='late-exit')
+            c['plan'] += [entry('done', p, None, ('sleep', SLOW)) for p in range(1, ncpu)]
+            groups.append([c])
     # do_trials without trials; worker counts that are none
     for ncpu in (1, 2):
         groups.append([make_case(ncpu, 0, seed=3, api='do_trials', variant='do_trials-n0')])
@@ -634,6 +750,25 @@ def run(ctx):
     if not all('stuck' in a.split(';') for a in lead_ans):
         raise MachineryError('Orig model no longer shows the hang witnesses: %r' % lead_ans)
 
+    sw = ctx.driver('C09', ['explore swapped 2 2 - 0', 'explore cur 2 2 - 0'])
+    ctx.extra['swapped_order_model_outcomes_fault_free'] = sw[0]
+    if 'error' not in sw[0].split(';') or 'error' in sw[1].split(';'):
+        raise MachineryError('Swapped / current model no longer differ on the fault-free instance: %r' % sw)
+    # ---- get_ncpu: model vs implementation, every pair of value kinds
+    toks = ['none', 'int:1', 'int:2', 'int:8', 'int:0', 'int:-3', 'bool:1', 'bool:0', 'float', 'npint', 'str']
+    pairs_n = [{'cfg': a, 'local': b} for a in toks for b in toks]
+    impl_req = [_ncpu_impl(c) for c in pairs_n]
+    ans_n = ctx.driver('C09', [r for _, r in impl_req])
+    for c, (imp, _), mod in zip(pairs_n, impl_req, ans_n):
+        ctx.case(key=('ncpu', c['cfg'], c['local']))
+        ctx.count('corr:get_ncpu:' + (mod if not mod.startswith('ok') else 'ok'))
+        if imp != mod:
+            ctx.violation('ncpu', c, 'get_ncpu(cfg ncpu=%s, local_ncpu=%s): implementation %s, model %s' % (c['cfg'], c['local'], imp, mod),
+                          kind='correspondence', relation='exact', impl_output=imp, model_output=mod, signature='C09/get_ncpu/' + mod.split(':')[0])
+    # ---- branch coverage of the model runs that accompany the real runs
+    zero = [b for b in ALL_BRANCHES if not ctx.counters.get('model-branch:' + b)]
+    ctx.extra['counts'] = {'zero_hit_model_branches': zero, 'unreachable_by_theorem': UNREACHABLE_BRANCHES,
+                           'unreachable_hit': [b for b in UNREACHABLE_BRANCHES if ctx.counters.get('model-branch:' + b)]}
     # ---- compare
     n_dis = 0
     for g in groups:
@@ -684,6 +819,8 @@ def run(ctx):
             if runs != want:
                 ctx.count('diag:observed-chunks-differ-from-array_split')     # diagnostic only: the property does not fix the distribution
 
+
+ORACLES['ncpu'] = o_ncpu
 
 MANIFEST = dict(
     text=('Lean theorems on a transition-system model of parallelize (children, shared result queue, per-child log queues, the '
